@@ -212,8 +212,42 @@ def judge(rec, label, design, must_flatten, sample=False):
                       names_have_colon=names_have_colon)
 
 
+def colon_shared_designs():
+    """A sub-module instance whose NAME equals the ':'-joined path of another instance of the same module: both paths reach the
+    same (shared) leaf instances, under the same generated names."""
+    S = lambda n: ["sig", n]
+    for depth in (2, 3):
+        for nleaf in (1, 2):
+            cell = {"name": "Cell", "style": "proc", "ports": [["pa", 1, "inout"], ["pb", 1, "inout"]], "bports": [], "sigs": [["k", 1]], "buns": [],
+                    "insts": [{"name": f"r{j}", "kind": "single", "of": ["leaf", "R"], "tag": 10 + j, "conns": {"p": S("pa"), "n": S("k" if j else "pb")}}
+                              for j in range(nleaf)]}
+            if nleaf == 1:
+                cell["sigs"] = []
+            mid = {"name": "Mid", "style": "proc", "ports": [["pa", 1, "inout"], ["pb", 1, "inout"]], "bports": [], "sigs": [], "buns": [],
+                   "insts": [{"name": "b", "kind": "single", "of": ["mod", "Cell"], "tag": None, "conns": {"pa": S("pa"), "pb": S("pb")}}]}
+            mods = [cell, mid]
+            inner, path = "Mid", "u:b"
+            if depth == 3:
+                mods.append({"name": "Mid2", "style": "proc", "ports": [["pa", 1, "inout"], ["pb", 1, "inout"]], "bports": [], "sigs": [], "buns": [],
+                             "insts": [{"name": "m", "kind": "single", "of": ["mod", "Mid"], "tag": None, "conns": {"pa": S("pa"), "pb": S("pb")}}]})
+                inner, path = "Mid2", "u:m:b"
+            for also in ((path,), (path, path.rsplit(":", 1)[0] + ":zz"), ("u:b" if depth == 3 else "u", )):
+                insts = [{"name": "u", "kind": "single", "of": ["mod", inner], "tag": None, "conns": {"pa": S("x"), "pb": S("y")}}]
+                for q, nm in enumerate(also):
+                    if nm == "u":
+                        continue
+                    insts.append({"name": nm, "kind": "single", "of": ["mod", "Cell"], "tag": None, "conns": {"pa": S("y"), "pb": S(f"z{q}")}})
+                top = {"name": "Top", "style": "proc", "ports": [["x", 1, "inout"]], "bports": [],
+                       "sigs": [["y", 1]] + [[f"z{q}", 1] for q in range(len(also))], "buns": [], "insts": insts}
+                yield f"colon-shared depth={depth} leaves={nleaf} names={also}", {"bundles": {}, "modules": copy.deepcopy(mods) + [top], "top": "Top"}
+
+
 def run(ctx, rec):
     rng = ctx.rng("c16")
+    if ctx.shard == 0:
+        for label, d in colon_shared_designs():
+            rec.count("colon-shared.designs")
+            judge(rec, label, d, True, sample=False)
     n = 700 if ctx.quick else 3000
     if ctx.nshards > 1:
         n = n // 2
